@@ -255,6 +255,13 @@ func deleteFilteredData[T any](remoteWrite bool, existingData []T, filterData *F
 
 	var result []T
 	for i := range existingData {
+		// only items addressed by the filter can make a remote write fail
+		addressed := filterData.Selector == nil || filterData.SelectorMatch(util.Ptr(existingData[i]))
+		if !addressed {
+			result = append(result, existingData[i])
+			continue
+		}
+
 		writeAllowed := writeAllowed(existingData[i])
 		if !writeAllowed && remoteWrite {
 			success = false
